@@ -78,7 +78,9 @@ def replay(tid, cons, styles_by_rank, rounds, rng, variant_override=None):
             blank = variant_votes and rng.random() < 0.3
             if blank:           # listed contests with no selections at all, as blank cards and style-aware phantoms have
                 votes = {c: {} for c in votes}
+            # (a card may carry a sampling probability from an earlier estimate - also 0: not an input of the selection)
             out.append(CVR(id=f"1-1-{pos}" if not variant_votes else f"9-9-{pos}x", votes=votes,
+                           p=(rng.choice([None, 0, 0, 0.5]) if variant_votes else None),
                            phantom=(blank and rng.random() < 0.5), card_in_batch=pos,
                            sample_num=base + stride * rank_of_pos[pos]))
         return out
@@ -180,7 +182,11 @@ def replay(tid, cons, styles_by_rank, rounds, rng, variant_override=None):
                 prev, prev_alt = idx, idx_alt
                 cards, sample_order, cvr_sample, mvr_ph = Dominion.sample_from_cvrs(cvrs, manifest, np.array(idx, dtype=int))
                 mvr_sample = [mk_mvr(cv) for cv in cvr_sample]
-                rng.shuffle(mvr_sample)
+                if rng.random() < 0.3:     # both lists in shelf (card id) order, paired but not in selection order
+                    mvr_sample.sort(key=lambda c_: str(c_.id))
+                    cvr_sample.sort(key=lambda c_: str(c_.id))
+                else:
+                    rng.shuffle(mvr_sample)
                 CVR.prep_comparison_sample(mvr_sample, cvr_sample, sample_order)
                 data = {}
                 for c in cons:
